@@ -238,12 +238,14 @@ template <class S, class T> void vec3_from_vec4 (bool thorough)
             // S != T: one slot ranges over B, the other two over a small generic set (bounded deviation) -
             //         the mixed-type alphabet B is twice as large and every inexact quotient is a (known) failure.
             const S      G3[4] = {S (0), S (1), S (-3), S (0.1)};
-            const size_t total_cases = mixed ? 3 * nb * 16 : nb * nb * nb;
-            (void) thorough;
+            // thorough (audit2 C07 S5): the full cube for S != T as well (the oracle is differential, so the cube needs no
+            // exactness restriction; only the cost kept it out of the quick tier)
+            const bool   cube = !mixed || thorough;
+            const size_t total_cases = cube ? nb * nb * nb : 3 * nb * 16;
             for (size_t idx = 0; idx < total_cases; ++idx)
                     {
                         S xyz[3];
-                        if (!mixed) { xyz[0] = B[idx % nb]; xyz[1] = B[(idx / nb) % nb]; xyz[2] = B[idx / nb / nb]; }
+                        if (cube) { xyz[0] = B[idx % nb]; xyz[1] = B[(idx / nb) % nb]; xyz[2] = B[idx / nb / nb]; }
                         else
                         {
                             size_t slot = idx % 3, r = idx / 3;
@@ -350,8 +352,8 @@ void stage_vec3_from_vec4 ()
     const bool th = R ().thorough ();
     if (R ().stage ("Vec3(Vec4,InfException).float<-float")) { vec3_from_vec4<float, float> (th); R ().stage_done ("w in A (both signs) x (x,y,z) in B(w)^3"); }
     if (R ().stage ("Vec3(Vec4,InfException).double<-double")) { vec3_from_vec4<double, double> (th); R ().stage_done ("w in A (both signs) x (x,y,z) in B(w)^3"); }
-    if (R ().stage ("Vec3(Vec4,InfException).double<-float")) { vec3_from_vec4<float, double> (th); R ().stage_done ("w in A_S u A_T x (x,y,z) in (B_S u B_T)(w)^3"); }
-    if (R ().stage ("Vec3(Vec4,InfException).float<-double")) { vec3_from_vec4<double, float> (th); R ().stage_done ("w in A_S u A_T x (x,y,z) in (B_S u B_T)(w)^3"); }
+    if (R ().stage ("Vec3(Vec4,InfException).double<-float")) { vec3_from_vec4<float, double> (th); R ().stage_done (th ? "w in A_S u A_T x (x,y,z) in (B_S u B_T)(w)^3" : "w in A_S u A_T x one of x,y,z in (B_S u B_T)(w), the other two in {0,1,-3,0.1}"); }
+    if (R ().stage ("Vec3(Vec4,InfException).float<-double")) { vec3_from_vec4<double, float> (th); R ().stage_done (th ? "w in A_S u A_T x (x,y,z) in (B_S u B_T)(w)^3" : "w in A_S u A_T x one of x,y,z in (B_S u B_T)(w), the other two in {0,1,-3,0.1}"); }
     Vec4<double> v (1.0, 2.0, 0.1, 3.0);
     Vec3<float>  a (v), b (v, INF_EXCEPTION);
     R ().sample (Msg () << "Vec3<float>(Vec4<double>(1,2,0.1,3)).x unchecked " << a.x << " checked " << b.x);
